@@ -5,6 +5,7 @@ use crate::ops::{self, Stepped};
 use crate::refmodel::*;
 use crate::world::{self, balance, PosRef, StdWorld};
 use solana_program::instruction::Instruction;
+use solana_program::pubkey::Pubkey;
 use svm::{Ledger, Route};
 use whirlpool::math::sqrt_price_from_tick_index;
 
@@ -228,6 +229,73 @@ pub fn amounts_oracle(
             return Err(format!(
                 "{what} realising {ra}/{rb}: caller {} {ba}/{bb} gave {} (expected {})",
                 if increase { "maxima" } else { "minima" },
+                o.short(),
+                if should { "success" } else { "failure" }
+            ));
+        }
+        if !o.ok() {
+            stats.bound_failures += 1;
+        }
+    }
+    Ok(())
+}
+
+/// reposition_liquidity_v2 on plain SPL mints: the old range is withdrawn (rounded down), the new one deposited (rounded up),
+/// and only the net moves between owner and vault; the caller's minima apply to the withdrawal, the maxima to the deposit.
+pub fn reposition_oracle(pre: &Ledger, st: &Stepped, w: &StdWorld, pos_before: &PosRef, new_lower: i32, new_upper: i32, new_liq: u128, stats: &mut AmtStats) -> Result<(), String> {
+    let post = &st.ledger;
+    let old_liq = pos_before.state(pre).liquidity;
+    let (oa, ob, _) = exact_amounts(pre, pos_before, old_liq);
+    let mut newp = pos_before.clone();
+    newp.lower = new_lower;
+    newp.upper = new_upper;
+    let (na, nb, region) = exact_amounts(pre, &newp, new_liq);
+    match region {
+        0 => stats.below += 1,
+        1 => stats.inside += 1,
+        _ => stats.above += 1,
+    }
+    let (oa, ob) = (oa.floor(), ob.floor());
+    let (na, nb) = (na.ceil(), nb.ceil());
+    let d = |x: &Pubkey| balance(pre, x) as i128 - balance(post, x) as i128; // positive = paid by the holder of x
+    let (wa, wb) = (d(&w.lp.acct_a), d(&w.lp.acct_b));
+    let (va, vb) = (-d(&w.pool.vault_a), -d(&w.pool.vault_b));
+    let big = |x: &num_bigint::BigUint| x.to_string().parse::<i128>().unwrap_or(i128::MAX);
+    let (ea, eb) = (big(&na) - big(&oa), big(&nb) - big(&ob));
+    if wa != ea || wb != eb {
+        return Err(format!(
+            "reposition [{}..{}) L {old_liq} -> [{new_lower}..{new_upper}) L {new_liq}: owner net {wa}/{wb}, expected new deposit (rounded up) {na}/{nb} minus old withdrawal (rounded down) {oa}/{ob} = {ea}/{eb}",
+            pos_before.lower, pos_before.upper
+        ));
+    }
+    if va != wa || vb != wb {
+        return Err(format!("reposition: vault net {va}/{vb} differs from owner net {wa}/{wb}"));
+    }
+    let after = pos_before.state(post);
+    if after.tick_lower_index != new_lower || after.tick_upper_index != new_upper || after.liquidity != new_liq {
+        return Err(format!("reposition: position is [{}..{}) L {} afterwards", after.tick_lower_index, after.tick_upper_index, after.liquidity));
+    }
+    stats.increases += 1;
+    stats.decreases += 1;
+    // caller bounds
+    let (oa64, ob64, na64, nb64) = (big(&oa) as u64, big(&ob) as u64, big(&na) as u64, big(&nb) as u64);
+    let variants: Vec<(u64, u64, u64, u64, bool)> = vec![
+        (oa64, ob64, na64, nb64, true),
+        (oa64.saturating_add(1), ob64, na64, nb64, oa64 == u64::MAX),
+        (oa64, ob64.saturating_add(1), na64, nb64, ob64 == u64::MAX),
+        (oa64, ob64, na64.wrapping_sub(1), nb64, na64 == 0),
+        (oa64, ob64, na64, nb64.wrapping_sub(1), nb64 == 0),
+    ];
+    for (mina, minb, maxa, maxb, should) in variants {
+        if (na64 == 0 && maxa == u64::MAX) || (nb64 == 0 && maxb == u64::MAX) {
+            continue;
+        }
+        let mut c = pre.clone();
+        let o = svm::process(&mut c, &world::ix_reposition_v2(pos_before, &w.lp, w.funder, new_lower, new_upper, new_liq, mina, minb, maxa, maxb));
+        stats.bound_reruns += 1;
+        if o.ok() != should {
+            return Err(format!(
+                "reposition withdrawing {oa64}/{ob64} and depositing {na64}/{nb64}: minima {mina}/{minb}, maxima {maxa}/{maxb} gave {} (expected {})",
                 o.short(),
                 if should { "success" } else { "failure" }
             ));
